@@ -403,6 +403,9 @@ var quickDev = map[string]bool{"netconf.Get/1.0": true, "netconf.Get/1.1": true,
 func scenarios(tier string) []sched.Scenario {
 	var out []sched.Scenario
 	for _, op := range cm.Ops() {
+		if op.Kind == "open-plain" {
+			continue // reads nothing: no stall point can delay it
+		}
 		for _, st := range settings {
 			if st.override >= 0 && !op.Override {
 				continue
